@@ -9,5 +9,6 @@ CONSTANTS
   MaxForce = 1
   MaxStops = 0
   MaxKills = 0
+  MaxPauses = 0
 INVARIANT NoF5
 CHECK_DEADLOCK FALSE
